@@ -4,16 +4,23 @@
 # the ids in meta.json "also") with FROST_REPO pointing at that worktree, undo it straight afterwards.
 # usage: tools/eval_seeded.sh [name ...]      (default: all)
 cd "$(dirname "$0")/.."
+# work from a private copy of /verif (own mirror, own build directory) so that checks run from /verif itself at the same
+# time are not disturbed
+EV=/tmp/verif-eval
+mkdir -p $EV && rsync -a --delete --exclude .git --exclude replays --exclude evidence --exclude 'work/*.jsonl' ./ $EV/ || exit 2
+mkdir -p $EV/evidence $EV/replays
+SEEDED=$PWD/seeded
+cd $EV
 WT=/tmp/wt/eval
 if [ ! -d $WT ]; then git -C /repo worktree add -q --detach $WT HEAD || exit 2; fi
 git -C $WT checkout -q --detach $(git -C /repo rev-parse HEAD) && git -C $WT checkout -q -- . 
-names=("$@"); [ ${#names[@]} -eq 0 ] && names=($(ls seeded))
+names=("$@"); [ ${#names[@]} -eq 0 ] && names=($(ls $SEEDED))
 for n in "${names[@]}"; do
-  d=seeded/$n; [ -f $d/patch.diff ] || continue
+  d=$SEEDED/$n; [ -f $d/patch.diff ] || continue
   prop=$(python3 -c "import json;print(json.load(open('$d/meta.json'))['property'])")
   also=$(python3 -c "import json;print(' '.join(json.load(open('$d/meta.json')).get('also',[])))")
-  if ! git -C $WT apply --check $PWD/$d/patch.diff 2>/dev/null; then echo "$n: PATCH DOES NOT APPLY"; continue; fi
-  git -C $WT apply $PWD/$d/patch.diff
+  if ! git -C $WT apply --check $d/patch.diff 2>/dev/null; then echo "$n: PATCH DOES NOT APPLY"; continue; fi
+  git -C $WT apply $d/patch.diff
   for id in $prop $also; do
     out=$(FROST_REPO=$WT ./check $id --no-evidence 2>&1); rc=$?
     v=$(echo "$out" | grep -m1 "oracle=" | sed 's/^ *//' | cut -c1-170)
@@ -21,6 +28,4 @@ for n in "${names[@]}"; do
   done
   git -C $WT checkout -q -- .
 done
-# leave the shared mirror / binary in the state of /repo itself
-./check C20 --no-evidence --runs 1 >/dev/null 2>&1
-rm -rf replays/*
+find $EV/replays -name '*.json' -delete
